@@ -233,6 +233,54 @@ CLAIMED['C12'] = dict(
          'slicealone, argmutated. Computed $project fields, positional projection and mixed '
          'include/exclude are out of scope.')
 
+CLAIMED['C06'] = dict(
+    technique='Lean 4 invariant (no two covered documents with equal index keys) preserved by '
+              'every operation and over histories, via a bridge between the uniqueness query the '
+              'code issues and key equality; tied to the code by history correspondence and an '
+              'independent python rendering of the uniqueness rule',
+    text='Lean 4 theorems about the model of _ensure_uniques / create_index / the insert and '
+         'update paths: UniqInv (for every unique index no two covered documents have equal index '
+         'keys; missing = null; sparse and partial coverage) holds initially and is preserved by '
+         'EVERY operation of the modelled language — insert, insert_many, update, replacement, '
+         'upsert, deletes, reads, index creation and removal — on the domain of scalar index keys '
+         'reached through sub-documents (with symmetric store keys, well-formed documents and '
+         'partial filters that do not tell ==-equal documents apart), hence along every history '
+         '(reachable_uniq_partial); a write that would duplicate a key is rejected; creating a '
+         'unique index over duplicates fails with DuplicateKeyError and leaves the index table '
+         'unchanged; a successful creation establishes uniqueness for that index (also sparse / '
+         'partial). The unrestricted statement is refuted on kernel-checked witnesses, one of them '
+         'a genuine defect found by the proof attempt (an update whose result is ==-equal to the '
+         'old document skips the check). Tie: histories over all write paths against single / '
+         'nested / compound, sparse and partial unique indexes created before or after the data; '
+         'outcome, _id sequence and index names are compared with the compiled model, and an '
+         'independent python evaluation of the rule (multikey-aware) checks every listed unique '
+         'index after every step.',
+    note='Known findings: multikey (arrays are not multikey), deadend-null (a dotted index path '
+         'ending in a scalar is not null), sparse-null, partial-type-sensitive. Index keys that are '
+         'arrays or embedded documents are outside the theorem domain.')
+
+CLAIMED['C07'] = dict(
+    technique='Lean 4 heap model (values with object identities, copy primitives, a table of the '
+              'copy discipline per API position) with a separation invariant over histories; tied '
+              'to the code by walking the real object graph (id()) after every step and '
+              'scribbling on every held object',
+    text='Lean 4 theorems about a heap model: the deep primitives (rebuild = patch_datetime..., '
+         '_copy_field, deepcopy) allocate only fresh identities and preserve the value; Sep (no '
+         'object occurs twice in the store, nothing stored is held by the caller) is preserved by '
+         'every step whose table row copies at every position, hence in every reachable world; '
+         'under Sep, mutating ANY object the caller holds leaves the store unchanged and an edit '
+         'of one stored document never shows in another; arguments are unchanged except the '
+         'documented _id write of insert; the table rows that do not copy are exactly the listed '
+         'positions (decide over the finite table), and a table without the per-document copy of '
+         '$set is shown to break Sep. Tie: after EVERY step of generated histories (nested mutable '
+         'values through every value-bearing operator and read path) the harness walks '
+         'coll._store._documents and every held object, compares the observed sharing with the '
+         'table position by position, deep-compares every argument with its pre-call copy, '
+         'scribbles on everything held and re-reads the collection.',
+    note='The table is read from the code and validated by observation (deep vs aliasing only). '
+         'Known findings: caller-to-caller sharing of pipeline constants and cached cursor '
+         'results. $sample/$out/$lookup/$facet and bulk_write are not generated here.')
+
 PENDING = {
     'C02': 'model (MongoModel/Update.lean) and correspondence exist; theorems not yet proved',
     'C03': 'in progress: pipeline model depends on the expression model (C04)',
